@@ -227,6 +227,10 @@ def binop(fr, op, l, r, node):
         if isinstance(op, ast.LShift):
             return ABits(l.items[k:] + [ZERO] * k, "ba", l.endian)
         return ABits([ZERO] * k + l.items[:len(l.items) - k], "ba", l.endian)
+    if isinstance(l, ABits) and l.kind == "np" and isinstance(r, int) and not isinstance(r, bool) and \
+            (isinstance(op, ast.Mod) and r >= 2 or isinstance(op, ast.BitAnd) and r & 1 and r > 0):
+        # a numpy vector of 0/1 elements reduced mod 2 (or masked with an odd constant): elementwise the same bits, a new array
+        return ABits(list(l.items), "np", l.endian)
     # bitarray bitwise ops
     if isinstance(l, ABits) and isinstance(r, (ABits, BitArr)) and isinstance(op, (ast.BitXor, ast.BitAnd, ast.BitOr)):
         rb = fr.to_bitlist(r)
@@ -702,7 +706,7 @@ def eq(fr, l, r, node):
         if isinstance(l, ACond) and isinstance(r, bool):
             return l if r else ACond("not", l)
         return ACond("eqc", l, r)
-    if is_abs(l) or is_abs(r):
+    if (is_abs(l) or is_abs(r)) and not (isinstance(l, (list, tuple)) and isinstance(r, (list, tuple))):
         if l is r:
             return True
         if l is None or r is None or isinstance(l, (str, EnumMember, ClassRef, FuncRef)) or isinstance(r, (str, EnumMember, ClassRef, FuncRef)):
@@ -886,9 +890,11 @@ def getattr_(fr, base, attr, node):
             if attr == "_member_map_":
                 return dict(mem_)
             try:
-                return {m_.value: m_ for m_ in mem_.values()}
+                vm = EnumValueMap({m_.value: m_ for m_ in mem_.values()})
             except TypeError:
                 raise Abort(f"{ci.name}._value2member_map_ with unhashable values")
+            vm.ci = ci
+            return vm
         if repo.is_enum(ci) and attr.startswith("_") and attr.endswith("_") and not attr.startswith("__"):
             raise Abort(f"enum internals {ci.name}.{attr} are not modelled")
         if attr.startswith("__") and attr.endswith("__"):
@@ -982,6 +988,21 @@ def find_enum_class(fr, m: EnumMember):
         if ci.name == m.cls and fr.I.repo.is_enum(ci):
             return ci
     return None
+
+
+def fin_members_to_enum(fr, v):
+    """a finite function whose values are all members (non-negative integer values) of ONE enumeration is the lazy enumeration
+    view of the integer "value of the selected member" — the same representation Enum(<symbolic int>) gets"""
+    if not isinstance(v, AFin) or not v.table or not all(isinstance(t, EnumMember) for t in v.table):
+        return v
+    if len({t.cls for t in v.table}) != 1 or not all(isinstance(t.value, int) and not isinstance(t.value, bool) and t.value >= 0 for t in v.table):
+        return v
+    ci = find_enum_class(fr, v.table[0])
+    if ci is None:
+        return v
+    w = max(max(t.value for t in v.table).bit_length(), 1)
+    bits = [fr.I.simp(AFin(list(v.atoms), [(t.value >> j) & 1 for t in v.table])) for j in range(w)]
+    return AEnum(ci, AInt(bits))
 
 
 def symbolic_field(fr, obj: AObj, attr: str):
@@ -1111,6 +1132,8 @@ def subscript(fr, base, sl, node):
         return I.opaque("subscript of opaque")
     if isinstance(base, (list, tuple, dict)) and not isinstance(sl, ast.Slice) and not any(is_abs(x) and not isinstance(x, ABits) for x in (base.values() if isinstance(base, dict) else base)):
         key = fr.ev(sl)
+        if isinstance(base, EnumValueMap) and isinstance(key, AInt) and const_of(fr, key) is None and key.ext is None:
+            return I.enum_lookup(base.ci, key, via_map="index")
         if isinstance(key, AInt) and const_of(fr, key) is None or isinstance(key, AFin) or (isinstance(key, tuple) and is_abs(key)):
             if isinstance(key, AInt):
                 key = AInt(I.simp_bits(key.bits), key.ext, key.interp, key.isbool)
@@ -1130,7 +1153,7 @@ def subscript(fr, base, sl, node):
             if isinstance(v, AFin) and any(isinstance(t, _Raises) for t in v.table):
                 exc = [t for t in v.table if isinstance(t, _Raises)][0].exc
                 raise PartialRaise(exc, f"{fr.fi.module.relpath}:{node.lineno}")
-            return v
+            return fin_members_to_enum(fr, v)
     if isinstance(base, (list, tuple)) and isinstance(sl, ast.Slice) and sl.step is None and not any(is_abs(x) for x in base):
         # a slice of a constant table whose bounds are finite functions of a few input bits (row of a state table selected by
         # a data-dependent state): the finite function "bounds -> that slice"
@@ -1330,6 +1353,15 @@ def b_isinstance(fr, args, kw, n):
     ts = list(t) if isinstance(t, (tuple, list)) else [t]
     if isinstance(v, AOpq):
         return fr.I.opaque("isinstance of opaque")
+    if isinstance(v, AFin):
+        # a value selected by a few input bits: its type is the type of the selected values (decided per case when they differ)
+        v2 = fr.I.simp_fin(v)
+        if isinstance(v2, AFin):
+            res = {any(type_matches(fr, tv, x) for x in ts) for tv in v2.table if not isinstance(tv, _Raises)}
+            if len(res) == 1:
+                return res.pop()
+            raise NeedCases(sorted(v2.atoms))
+        v = v2
     for x in ts:
         if type_matches(fr, v, x):
             return True
@@ -2050,8 +2082,15 @@ def ident_key(k) -> bool:
     return not is_abs(k)
 
 
+class EnumValueMap(dict):
+    """Enum._value2member_map_: value -> member; a lookup with a symbolic integer is the lazy enumeration view of that integer"""
+    ci = None
+
+
 def subscript_dict_abs(fr, d, key, n):
     I = fr.I
+    if isinstance(d, EnumValueMap) and isinstance(key, AInt) and const_of(fr, key) is None and key.ext is None:
+        return I.enum_lookup(d.ci, key, via_map="index")
     if isinstance(key, AFin):
         key = I.simp_fin(key)
         if isinstance(key, AFin):
@@ -2078,8 +2117,14 @@ def subscript_dict_abs(fr, d, key, n):
     raise Abort("abstract dict key")
 
 
+_BA_MUTATORS = frozenset(("invert", "reverse", "extend", "append", "setall", "pop", "clear", "bytereverse", "fill", "sort", "insert", "remove",
+                          "frombytes", "fromfile", "encode", "pack"))
+
+
 def bits_method(fr, b: ABits, name, args, kw, n):
     I = fr.I
+    if b.frozen and name in _BA_MUTATORS:
+        raise PathRaise("TypeError", f"frozenbitarray is immutable ({name}) at {fr.fi.module.relpath}:{getattr(n, 'lineno', 0)}")
     if b.kind == "bitstr":
         # a text of binary digits (see b_bin): the padding / counting methods of str that keep it one
         if any(x is BINSTR_PREFIX for x in b.items):
@@ -2119,7 +2164,7 @@ def bits_method(fr, b: ABits, name, args, kw, n):
     if name == "tolist":
         return ABits(list(b.items), "list")
     if name == "copy":
-        return ABits(list(b.items), b.kind, b.endian)
+        return b.copy()
     if name == "extend":
         b.items.extend(fr.to_bitlist(args[0]))
         return None
@@ -2234,6 +2279,15 @@ def bits_method(fr, b: ABits, name, args, kw, n):
         return False
     if name in ("startswith", "endswith") and b.kind == "bytes":
         return I.opaque("bytes.startswith")
+    if name in ("ljust", "rjust", "zfill") and b.kind == "bytes" and args and not kw:
+        width = fr.cint(args[0])
+        fill = b"0" if name == "zfill" else (args[1] if len(args) > 1 else b" ")
+        if name == "zfill" and len(args) != 1 or not isinstance(fill, (bytes, bytearray)) or len(fill) != 1:
+            raise PathRaise("TypeError", f"bytes.{name}: the fill must be a single byte at {fr.fi.module.relpath}:{n.lineno}")
+        if name == "zfill":
+            raise Abort("bytes.zfill (sign handling) is not modelled")
+        pad = [cbit((fill[0] >> (7 - j)) & 1) for j in range(8)] * max(0, width - len(b.items) // 8)
+        return ABits((list(b.items) + pad) if name == "ljust" else (pad + list(b.items)), "bytes")
     raise Abort(f"bitarray/bytes method {name} at {fr.fi.module.relpath}:{n.lineno}")
 
 
@@ -2345,6 +2399,11 @@ def external(fr, name, args, kw, n):
     short = name.split(".")[-1]
     if name == "types.MappingProxyType" and len(args) == 1 and isinstance(args[0], dict):
         return args[0]   # a read-only view: reads behave like the dictionary (a store through it would be a TypeError, not modelled)
+    if name in ("bitarray.frozenbitarray", "frozenbitarray"):
+        r = external(fr, "bitarray.bitarray", args, kw, n)
+        if isinstance(r, ABits):
+            r.frozen = True
+        return r
     if name in ("bitarray.bitarray", "bitarray"):
         endian = kw.get("endian", "big")
         if not args:
